@@ -1281,6 +1281,9 @@ def _record_cex(sp, st, ob, f):
     except Inconclusive as e:
         rec["cex"] = None
         rec["cex_error"] = str(e)
+    except Exception as e:  # noqa - a counterexample that cannot be rendered is reported as not replayable (=> inconclusive), never dropped
+        rec["cex"] = None
+        rec["cex_error"] = f"{type(e).__name__}: {e}"
     rec["alt_cex"] = []
     for am in alts:
         try:
